@@ -256,6 +256,23 @@ pub fn generate(group: &str, r: &mut Rng, n: usize) -> Vec<Value> {
                 out.push(json!({"ev":"seq","case":format!("d-subst-seq-{k}"),"src":"drive","in":{"inst":inst.json,"ops":ops}}));
             }
         }
+        "chain_encode" => {
+            for k in 0..n {
+                let mut inst = rand_instance(r, &InstOpts { with_deps: false, ..DEFAULT });
+                let vid = inst.used[0];
+                let lo = r.range(-6, 6);
+                let w = r.range(0, 12);
+                for v in inst.json["vars"].as_array_mut().unwrap() {
+                    if v["id"] == vid {
+                        v["kind"] = json!("integer");
+                        v["bound"] = json!([{"lo": q(2 * lo + r.range(-1, 0), 2), "hi": q(2 * (lo + w) + r.range(0, 1), 2)}]);
+                    }
+                }
+                let st: Vec<(u64, Value)> = inst.vars.iter().filter(|v| v.id != vid).map(|v| (v.id, v.value(r))).collect();
+                out.push(json!({"ev":"chain_encode","case":format!("d-chainenc-{k}"),"src":"drive",
+                    "in":{"inst":inst.json,"vid":vid,"bits":r.below(32),"st":st_json(&st)}}));
+            }
+        }
         "deps_order" => {
             for k in 0..n {
                 // dependency graphs on <= 5 dependents: chains, diamonds, cycles, dangling references
